@@ -31,13 +31,13 @@ theorem reachable_inv (ops : List Op) : ∀ (s : Sched) (opn : Nat → Bool) (e 
 /-- The outcome of a `Pop` that reaches the stream queues and serves stream `id` of class `c`. -/
 structure Served (e : Env) (s : P9218) (c id : Nat) (pre post : List Nat) : Prop where
   noctl : s.control.shift = none
-  found : firstClass e s.qs s.ring (classOrder (!s.toggle)) = some (c, pre, id, post)
+  found : firstClass e s.qs s.ring (classOrder s.pref) = some (c, pre, id, post)
 
 theorem pop_of_served {e : Env} {s : P9218} {c id : Nat} {pre post : List Nat} (h : Served e s c id pre post) :
     ∃ e' q' f, (s.qs id).consume e maxInt32 = (e', q', some f) ∧
       s.pop e = (e', P9218.mk s.control (upd s.qs id q')
                    (upd s.ring c (if c % 2 = 1 then post ++ pre ++ [id] else id :: (post ++ pre)))
-                   s.prio (!s.toggle) s.bufId s.bufClass, .frame f) := by
+                   s.prio (upd s.pref (c / 2) (c % 2 == 0)) s.bufId s.bufClass, .frame f) := by
   obtain ⟨_, _, hsend, _⟩ := firstClass_some h.found
   obtain ⟨e', q', f, hcons, _⟩ := pop_stream_spec (strict := True) (control := s.control) e (shift_none h.noctl) id hsend
   refine ⟨e', q', f, hcons, ?_⟩
@@ -47,7 +47,7 @@ theorem pop_of_served {e : Env} {s : P9218} {c id : Nat} {pre post : List Nat} (
 theorem served_of_pop {e e' : Env} {s s' : P9218} {f : Frame} (hn : s.control.shift = none)
     (h : s.pop e = (e', s', .frame f)) : ∃ c id pre post, Served e s c id pre post := by
   simp only [P9218.pop, hn] at h
-  cases hfc : firstClass e s.qs s.ring (classOrder (!s.toggle)) with
+  cases hfc : firstClass e s.qs s.ring (classOrder s.pref) with
   | none => simp [hfc] at h
   | some t => obtain ⟨c, pre, id, post⟩ := t; exact ⟨c, id, pre, post, hn, hfc⟩
 
@@ -73,59 +73,124 @@ theorem firstClass_before {e : Env} {qs : Nat → WQ} {ring : Nat → List Nat} 
         · exact splitFirst_none hnone
         · exact ih h c' hc'
 
-theorem order_urgency : ∀ t : Bool, ∀ c < 16, ∀ c' < 16, c' / 2 < c / 2 →
-    c' ∈ (classOrder t).takeWhile (· != c) := by decide
+/-- the two classes of urgency level `u`, in the order `Pop` tries them -/
+def pairOf (pref : Nat → Bool) (u : Nat) : List Nat := if pref u then [2 * u + 1, 2 * u] else [2 * u, 2 * u + 1]
 
-theorem order_preferred_aux : ∀ t : Bool, ∀ c < 16, ∀ c' < 16,
-    (c' / 2 == c / 2 && c' != c && (decide (c' % 2 = 1) == t)) = true →
-    c' ∈ (classOrder t).takeWhile (· != c) := by decide
+theorem classOrder_eq (pref : Nat → Bool) : classOrder pref = (List.range' 0 8).flatMap (pairOf pref) := by
+  simp only [classOrder, List.range_eq_range']; rfl
 
-theorem order_preferred (t : Bool) (c : Nat) (hc : c < 16) (c' : Nat) (hc' : c' < 16) (h1 : c' / 2 = c / 2) (h2 : c' ≠ c)
-    (h3 : decide (c' % 2 = 1) = t) : c' ∈ (classOrder t).takeWhile (· != c) := by
-  apply order_preferred_aux t c hc c' hc'
-  simp [h1, h2, h3]
+/-- `firstClass` over consecutive urgency levels `a, a+1, …`: the class found is the first one, in visiting
+order, that holds a sendable stream. -/
+theorem firstClass_levels {e : Env} {qs : Nat → WQ} {ring : Nat → List Nat} {pref : Nat → Bool} (n : Nat) :
+    ∀ (a : Nat) {c id : Nat} {pre post : List Nat},
+    firstClass e qs ring ((List.range' a n).flatMap (pairOf pref)) = some (c, pre, id, post) →
+    a ≤ c / 2 ∧ c / 2 < a + n ∧
+    (∀ c', a ≤ c' / 2 → c' / 2 < c / 2 → ∀ y ∈ ring c', sendable e (qs y) = false) ∧
+    (∀ c', c' / 2 = c / 2 → c' ≠ c → decide (c' % 2 = 1) = pref (c / 2) → ∀ y ∈ ring c', sendable e (qs y) = false) := by
+  induction n with
+  | zero => intro a c id pre post h; simp [firstClass] at h
+  | succ n ih =>
+    intro a c id pre post h
+    rw [List.range'_succ, List.flatMap_cons] at h
+    -- the two classes of level `a`
+    have hp : ∃ x y, pairOf pref a = [x, y] ∧ x / 2 = a ∧ y / 2 = a ∧ x ≠ y ∧
+        decide (x % 2 = 1) = pref a ∧ decide (y % 2 = 1) = !pref a := by
+      unfold pairOf
+      cases pref a
+      · exact ⟨2 * a, 2 * a + 1, by simp, by omega, by omega, by omega, by simp <;> omega, by simp <;> omega⟩
+      · exact ⟨2 * a + 1, 2 * a, by simp, by omega, by omega, by omega, by simp <;> omega, by simp <;> omega⟩
+    obtain ⟨x, y, hxy, hx2, hy2, hne, hxp, hyp⟩ := hp
+    rw [hxy] at h
+    simp only [List.cons_append, List.nil_append] at h
+    have two : ∀ c', c' / 2 = a → c' = x ∨ c' = y := by
+      intro c' hc'
+      have hx' : x % 2 ≠ y % 2 := by
+        intro hh
+        have : decide (x % 2 = 1) = decide (y % 2 = 1) := by rw [hh]
+        rw [hxp, hyp] at this; cases hb : pref a <;> simp [hb] at this
+      omega
+    unfold firstClass at h
+    split at h
+    · -- served from x, the preferred class of level a
+      rename_i pre' id' post' hsome
+      simp at h
+      obtain ⟨rfl, _, _, _⟩ := h
+      refine ⟨by omega, by omega, fun c' h1 h2 => by omega, ?_⟩
+      intro c' h1 h2 h3
+      rcases two c' (by omega) with rfl | rfl
+      · exact absurd rfl h2
+      · rw [hx2] at h3; rw [hyp] at h3; cases hb : pref a <;> simp [hb] at h3
+    · rename_i hnx
+      unfold firstClass at h
+      split at h
+      · rename_i pre' id' post' hsome
+        simp at h
+        obtain ⟨rfl, _, _, _⟩ := h
+        refine ⟨by omega, by omega, fun c' h1 h2 => by omega, ?_⟩
+        intro c' h1 h2 h3
+        rcases two c' (by omega) with rfl | rfl
+        · exact splitFirst_none hnx
+        · exact absurd rfl h2
+      · rename_i hny
+        obtain ⟨i1, i2, i3, i4⟩ := ih (a + 1) h
+        refine ⟨by omega, by omega, ?_, i4⟩
+        intro c' h1 h2
+        by_cases hca : c' / 2 = a
+        · rcases two c' hca with rfl | rfl
+          · exact splitFirst_none hnx
+          · exact splitFirst_none hny
+        · exact i3 c' (by omega) h2
 
-theorem classOrder_lt : ∀ t : Bool, ∀ c ∈ classOrder t, c < 16 := by decide
+/-- The class `Pop` serves is the first sendable one in visiting order: nothing more urgent is sendable, and
+if it is not the preferred class of its level then the preferred class has nothing sendable. -/
+theorem served_order {e : Env} {s : P9218} {c id : Nat} {pre post : List Nat} (h : Served e s c id pre post) :
+    c < 16 ∧ (∀ c', c' / 2 < c / 2 → ∀ y ∈ s.ring c', sendable e (s.qs y) = false) ∧
+    (∀ c', c' / 2 = c / 2 → c' ≠ c → decide (c' % 2 = 1) = s.pref (c / 2) →
+      ∀ y ∈ s.ring c', sendable e (s.qs y) = false) := by
+  have hf := h.found
+  rw [classOrder_eq] at hf
+  obtain ⟨_, h2, h3, h4⟩ := firstClass_levels 8 0 hf
+  exact ⟨by omega, fun c' hlt => h3 c' (by omega) hlt, h4⟩
 
 /-- **Urgency.**  When `Pop` serves a stream of class `c`, no open stream of strictly smaller urgency
 value (`c'/2 < c/2`) has a sendable frame. -/
 theorem urgency_respected {e : Env} {s : P9218} {opn : Nat → Bool} {c id : Nat} {pre post : List Nat}
     (hi : P9Inv s opn) (h : Served e s c id pre post) (x c' : Nat) (hx : s.prio x = some c') (hlt : c' / 2 < c / 2) :
     sendable e (s.qs x) = false := by
-  obtain ⟨hc', hmem⟩ := hi.cls x c' hx
-  have hc : c < 16 := classOrder_lt _ c (firstClass_some h.found).1
-  exact firstClass_before h.found c' (order_urgency _ c hc c' hc' hlt) x hmem
+  obtain ⟨_, hmem⟩ := hi.cls x c' hx
+  exact (served_order h).2.1 c' hlt x hmem
 
-/-- **Alternation.**  `prioritizeIncremental` is flipped by every `Pop` that reaches the stream queues;
-when a stream of class `c` is served while a stream of the other class of the same urgency is sendable,
-`c` is the class whose turn it is (incremental iff the flipped `prioritizeIncremental` is set).  Hence with
-both classes continuously sendable they are served alternately. -/
+/-- **Alternation.**  When a stream of class `c` is served while a stream of the other class of the same
+urgency is sendable, `c` is the class whose turn it is at that urgency level
+(incremental iff `prioritizeIncremental[u]` is set). -/
 theorem alternation {e : Env} {s : P9218} {opn : Nat → Bool} {c id : Nat} {pre post : List Nat}
     (hi : P9Inv s opn) (h : Served e s c id pre post) (x c' : Nat) (hx : s.prio x = some c')
     (hu : c' / 2 = c / 2) (hne : c' ≠ c) (hs : sendable e (s.qs x) = true) :
-    decide (c % 2 = 1) = !s.toggle := by
-  obtain ⟨hc', hmem⟩ := hi.cls x c' hx
-  have hc : c < 16 := classOrder_lt _ c (firstClass_some h.found).1
-  cases hd : decide (c' % 2 = 1) == !s.toggle with
+    decide (c % 2 = 1) = s.pref (c / 2) := by
+  obtain ⟨_, hmem⟩ := hi.cls x c' hx
+  cases hd : decide (c' % 2 = 1) == s.pref (c / 2) with
   | true =>
-    have := firstClass_before h.found c' (order_preferred _ c hc c' hc' hu hne (by simpa using hd)) x hmem
+    have := (served_order h).2.2 c' hu hne (by simpa using hd) x hmem
     rw [this] at hs; cases hs
   | false =>
     have h1 : c' % 2 ≠ c % 2 := by omega
-    cases ht : s.toggle <;> simp [ht] at hd ⊢ <;> omega
+    cases ht : s.pref (c / 2) <;> simp [ht] at hd ⊢ <;> omega
 
-theorem toggle_flips {e e' : Env} {s s' : P9218} {r : Res} (hn : s.control.shift = none)
-    (h : s.pop e = (e', s', r)) : s'.toggle = !s.toggle := by
-  simp only [P9218.pop, hn] at h
-  split at h
-  · cases h; rfl
-  · split at h <;> (cases h; rfl)
+/-- **The alternation state is per urgency level and changes only when that level is served**: a `Pop` that
+serves class `c` sets `prioritizeIncremental[c/2]` to "the other class next" and leaves all other levels alone;
+a `Pop` that returns nothing changes nothing. -/
+theorem toggle_flips {e : Env} {s : P9218} {c id : Nat} {pre post : List Nat} (h : Served e s c id pre post) :
+    (s.pop e).2.1.pref = upd s.pref (c / 2) (c % 2 == 0) := by
+  obtain ⟨e', q', f, _, hp⟩ := pop_of_served h
+  rw [hp]
 
-/-- A `Pop` that returns a control frame leaves `prioritizeIncremental` (and every ring) unchanged: control
-traffic interleaved with stream frames does not disturb the alternation between the incremental and the
-non-incremental class. -/
+theorem pop_none_unchanged {e : Env} {s : P9218} (hn : s.control.shift = none)
+    (hf : firstClass e s.qs s.ring (classOrder s.pref) = none) : s.pop e = (e, s, .none) := by
+  simp [P9218.pop, hn, hf]
+
+/-- A `Pop` that returns a control frame leaves the alternation state and every ring unchanged. -/
 theorem control_pop_keeps_toggle {e : Env} {s : P9218} {f : Frame} {c : WQ} (h : s.control.shift = some (f, c)) :
-    s.pop e = (e, { s with control := c }, .frame f) ∧ (s.pop e).2.1.toggle = s.toggle ∧
+    s.pop e = (e, { s with control := c }, .frame f) ∧ (s.pop e).2.1.pref = s.pref ∧
       (s.pop e).2.1.ring = s.ring := by
   have : s.pop e = (e, { s with control := c }, .frame f) := by simp [P9218.pop, h]
   rw [this]; exact ⟨rfl, rfl, rfl⟩
@@ -290,7 +355,7 @@ def exState : P9218 :=
 
 example : (exState.pop exEnv).2.2 = .frame (.hdr 9 5) := by decide
 example : Served exEnv exState 2 9 [] [] := ⟨by decide, by decide⟩
-example : ((exState.pop exEnv).2.1.pop exEnv).2.2 = .frame (.hdr 7 4) := by decide
+example : ((exState.pop exEnv).2.1.pop exEnv).2.2 = .frame (.hdr 1 1) := by decide
 
 /-! ## Multi-step theorems: consecutive `Pop`s
 
@@ -316,9 +381,6 @@ def SendableAt (st : St) (j x : Nat) : Prop := sendable (iter j st).1 ((iter j s
 def LowestAt (st : St) (j c : Nat) : Prop :=
   ∀ c', c' / 2 < c / 2 → ∀ y ∈ (iter j st).2.ring c', sendable (iter j st).1 ((iter j st).2.qs y) = false
 
-theorem order_total : ∀ t : Bool, ∀ c < 16, ∀ c' < 16, c ≠ c' →
-    c ∈ (classOrder t).takeWhile (· != c') ∨ c' ∈ (classOrder t).takeWhile (· != c) := by decide
-
 theorem firstClass_ne_none {e : Env} {qs : Nat → WQ} {ring : Nat → List Nat} {cs : List Nat} {c x : Nat}
     (hc : c ∈ cs) (hx : x ∈ ring c) (hs : sendable e (qs x) = true) : firstClass e qs ring cs ≠ none := by
   intro h
@@ -328,35 +390,9 @@ theorem firstClass_ne_none {e : Env} {qs : Nat → WQ} {ring : Nat → List Nat}
 /-- With the control queue empty and some stream sendable, `Pop` serves some stream. -/
 theorem served_exists {st : St} {c x : Nat} (hn : st.2.control.shift = none) (hc : c < 16) (hx : x ∈ st.2.ring c)
     (hs : sendable st.1 (st.2.qs x) = true) : ∃ c' id pre post, Served st.1 st.2 c' id pre post := by
-  cases hf : firstClass st.1 st.2.qs st.2.ring (classOrder (!st.2.toggle)) with
-  | none => exact absurd hf (firstClass_ne_none (classOrder_complete _ c hc) hx hs)
+  cases hf : firstClass st.1 st.2.qs st.2.ring (classOrder st.2.pref) with
+  | none => exact absurd hf (firstClass_ne_none (classOrder_complete st.2.pref c hc) hx hs)
   | some t => obtain ⟨c', pre, id, post⟩ := t; exact ⟨c', id, pre, post, hn, hf⟩
-
-/-- If `x` (class `c`) is sendable and nothing more urgent is, the served class has `c`'s urgency. -/
-theorem served_same_urgency {st : St} {c x c' id : Nat} {pre post : List Nat} (hc : c < 16) (hx : x ∈ st.2.ring c)
-    (hs : sendable st.1 (st.2.qs x) = true)
-    (hlow : ∀ c'', c'' / 2 < c / 2 → ∀ y ∈ st.2.ring c'', sendable st.1 (st.2.qs y) = false)
-    (h : Served st.1 st.2 c' id pre post) : c' / 2 = c / 2 := by
-  obtain ⟨hmem, hring, hsend, _⟩ := firstClass_some h.found
-  have hc' := classOrder_lt _ c' hmem
-  apply Classical.byContradiction; intro hne
-  rcases Nat.lt_or_gt_of_ne hne with hlt | hgt
-  · have := hlow c' hlt id (by rw [hring]; simp)
-    rw [hsend] at this; cases this
-  · have := firstClass_before h.found c (order_urgency _ c' hc' c hc hgt) x hx
-    rw [hs] at this; cases this
-
-/-- ... and on the incremental class's turn it is class `c` itself (for incremental `c`). -/
-theorem served_inc_turn {st : St} {c x c' id : Nat} {pre post : List Nat} (hc : c < 16) (hodd : c % 2 = 1)
-    (hx : x ∈ st.2.ring c) (hs : sendable st.1 (st.2.qs x) = true)
-    (hlow : ∀ c'', c'' / 2 < c / 2 → ∀ y ∈ st.2.ring c'', sendable st.1 (st.2.qs y) = false)
-    (ht : st.2.toggle = false) (h : Served st.1 st.2 c' id pre post) : c' = c := by
-  have hu := served_same_urgency hc hx hs hlow h
-  have hc' := classOrder_lt _ c' (firstClass_some h.found).1
-  apply Classical.byContradiction; intro hne
-  have := firstClass_before h.found c
-    (order_preferred _ c' hc' c hc hu.symm (fun hh => hne hh.symm) (by simp [ht, hodd])) x hx
-  rw [hs] at this; cases this
 
 theorem mem_ring_pop {e : Env} {s : P9218} {c' id : Nat} {pre post : List Nat} (h : Served e s c' id pre post)
     (c x : Nat) : x ∈ (s.pop e).2.1.ring c ↔ x ∈ s.ring c := by
@@ -371,73 +407,88 @@ theorem mem_ring_pop {e : Env} {s : P9218} {c' id : Nat} {pre post : List Nat} (
   · rfl
 
 theorem control_pop {e : Env} {s : P9218} {c' id : Nat} {pre post : List Nat} (h : Served e s c' id pre post) :
-    (s.pop e).2.1.control = s.control ∧ (s.pop e).2.1.toggle = !s.toggle := by
+    (s.pop e).2.1.control = s.control ∧ (s.pop e).2.1.pref = upd s.pref (c' / 2) (c' % 2 == 0) := by
   obtain ⟨e', q', f, _, hp⟩ := pop_of_served h
   rw [hp]; exact ⟨rfl, rfl⟩
 
-/-- potential: twice the distance of `x` from the head of its ring, plus one if the next Pop is the
-non-incremental class's turn -/
-def phi (c x : Nat) (s : P9218) : Nat := 2 * pos x (s.ring c) + (if s.toggle then 1 else 0)
+/-- the next Pop is answered from the urgency level of class `c` -/
+def levelOf (st : St) (c : Nat) : Bool :=
+  match firstClass st.1 st.2.qs st.2.ring (classOrder st.2.pref) with
+  | some (c', _) => c' / 2 == c / 2
+  | none => false
 
-/-- One Pop that does not serve `x` lowers the potential. -/
+/-- how many of the next `n` Pops are answered from the urgency level of class `c` -/
+def levelCount (c : Nat) : Nat → St → Nat
+  | 0, _ => 0
+  | n + 1, st => (if levelOf st c then 1 else 0) + levelCount c n (popSt st)
+
+/-- potential: twice the distance of `x` from the head of its ring, plus one if at its level the
+non-incremental class goes first -/
+def phi (c x : Nat) (s : P9218) : Nat := 2 * pos x (s.ring c) + (if s.pref (c / 2) then 0 else 1)
+
+/-- One Pop that does not serve `x`: the potential drops if the Pop is answered from `x`'s urgency level and
+is unchanged otherwise (Pops answered from other levels touch neither the ring nor the level's turn). -/
 theorem phi_step {st : St} {c x : Nat} (hc : c < 16) (hodd : c % 2 = 1) (hn : st.2.control.shift = none)
     (hx : x ∈ st.2.ring c) (hs : sendable st.1 (st.2.qs x) = true)
-    (hlow : ∀ c'', c'' / 2 < c / 2 → ∀ y ∈ st.2.ring c'', sendable st.1 (st.2.qs y) = false)
     (hnot : ¬ ∃ pre post, Served st.1 st.2 c x pre post) :
-    phi c x (popSt st).2 + 1 ≤ phi c x st.2 ∧ (popSt st).2.control.shift = none ∧ x ∈ (popSt st).2.ring c := by
+    phi c x (popSt st).2 + (if levelOf st c then 1 else 0) ≤ phi c x st.2 ∧
+      (popSt st).2.control.shift = none ∧ x ∈ (popSt st).2.ring c := by
   obtain ⟨c', id, pre, post, hsv⟩ := served_exists hn hc hx hs
-  obtain ⟨hctl, htog⟩ := control_pop hsv
+  obtain ⟨hctl, hpref⟩ := control_pop hsv
   have hmem := (mem_ring_pop hsv c x).2 hx
   refine ⟨?_, by simp only [popSt]; rw [hctl]; exact hn, hmem⟩
-  simp only [phi, popSt, htog]
-  have hposle : pos x ((st.2.pop st.1).2.1.ring c) ≤ pos x (st.2.ring c) ∧
-      (c' = c → pos x ((st.2.pop st.1).2.1.ring c) + 1 ≤ pos x (st.2.ring c)) := by
-    by_cases hcc : c' = c
+  have hlv : levelOf st c = (c' / 2 == c / 2) := by simp [levelOf, hsv.found]
+  simp only [phi, popSt, hpref, hlv]
+  by_cases hlev : c' / 2 = c / 2
+  · by_cases hcc : c' = c
     · subst hcc
       have hid : x ≠ id := by intro hh; subst hh; exact hnot ⟨pre, post, hsv⟩
       have := (inc_moves_forward hsv hodd x hx hid hs).1
-      exact ⟨by omega, fun _ => by omega⟩
-    · rw [pop_other_rings hsv c (fun hh => hcc hh.symm)]
-      exact ⟨Nat.le_refl _, fun hh => absurd hh hcc⟩
-  cases ht : st.2.toggle with
-  | false =>
-    have := served_inc_turn hc hodd hx hs hlow ht hsv
-    have := hposle.2 this
-    simp; omega
-  | true =>
-    have := hposle.1
-    simp; omega
+      have h0 : (c' % 2 == 0) = false := by simp; omega
+      simp [upd, h0]
+      split <;> omega
+    · have hpf : st.2.pref (c / 2) = false := by
+        cases hb : st.2.pref (c / 2) with
+        | false => rfl
+        | true =>
+          have := (served_order hsv).2.2 c hlev.symm (fun h => hcc h.symm) (by rw [← hlev] at hb; simp [hodd, hb]) x hx
+          rw [hs] at this; cases this
+      have h0 : (c' % 2 == 0) = true := by simp; omega
+      rw [pop_other_rings hsv c (fun h => hcc h.symm)]
+      simp [upd, hlev, h0, hpf]
+  · rw [pop_other_rings hsv c (fun h => hlev (by rw [h]))]
+    have : ¬ (c / 2 = c' / 2) := fun h => hlev h.symm
+    have hb : (c' / 2 == c / 2) = false := by simpa using hlev
+    simp [upd, this, hb]
 
-/-- **Bounded service, k-step form.**  Let `x` be a stream of the incremental class `c`.  Over `n`
-consecutive Pops during which the control queue is empty, `x` stays sendable and no more urgent class has a
-sendable stream: if none of the `n` Pops serves `x`, the potential `phi` has dropped by at least `n`. -/
+/-- **Bounded service, k-step form.**  Over `n` consecutive Pops during which the control queue is empty and
+the incremental stream `x` (class `c`) stays sendable: if none of them serves `x`, the potential has dropped
+by the number of those Pops that were answered from `x`'s urgency level. -/
 theorem inc_potential (c x : Nat) (hc : c < 16) (hodd : c % 2 = 1) : ∀ (n : Nat) (st : St),
     st.2.control.shift = none → x ∈ st.2.ring c →
-    (∀ j, j < n → SendableAt st j x) → (∀ j, j < n → LowestAt st j c) → (∀ j, j < n → ¬ ServesAt st j c x) →
-    n + phi c x (iter n st).2 ≤ phi c x st.2 := by
+    (∀ j, j < n → SendableAt st j x) → (∀ j, j < n → ¬ ServesAt st j c x) →
+    levelCount c n st + phi c x (iter n st).2 ≤ phi c x st.2 := by
   intro n
   induction n with
-  | zero => intro st _ _ _ _ _; simp [iter]
+  | zero => intro st _ _ _ _; simp [iter, levelCount]
   | succ k ih =>
-    intro st hn hx hs hl hnot
-    obtain ⟨h1, h2, h3⟩ := phi_step (st := st) hc hodd hn hx (hs 0 (by omega)) (hl 0 (by omega)) (hnot 0 (by omega))
-    have := ih (popSt st) h2 h3 (fun j hj => hs (j + 1) (by omega)) (fun j hj => hl (j + 1) (by omega))
-      (fun j hj => hnot (j + 1) (by omega))
-    simp only [iter]
+    intro st hn hx hs hnot
+    obtain ⟨h1, h2, h3⟩ := phi_step (st := st) hc hodd hn hx (hs 0 (by omega)) (hnot 0 (by omega))
+    have := ih (popSt st) h2 h3 (fun j hj => hs (j + 1) (by omega)) (fun j hj => hnot (j + 1) (by omega))
+    simp only [iter, levelCount]
     omega
 
-/-- **Each sendable incremental stream is served within a bounded number of Pops.**  If the ring of the
-incremental class `c` holds `k` streams, `c` is at the lowest sendable urgency and stream `x` of that ring
-stays sendable, then one of any `2 * k` consecutive Pops serves `x` (`k` Pops of the class itself; the
-factor 2 is the alternation with the non-incremental class of the same urgency). -/
-theorem inc_served_within_2k (c x : Nat) (hc : c < 16) (hodd : c % 2 = 1) (st : St)
+/-- **Each sendable incremental stream is served within a bounded number of Pops of its urgency level.**
+If the ring of the incremental class `c` holds `k` streams and stream `x` of it stays sendable, then `x` is
+served before `2 * k` Pops have been answered from its urgency level — whatever more urgent (or less urgent)
+streams do in between; no assumption on other levels. -/
+theorem inc_served_within_2k (c x : Nat) (hc : c < 16) (hodd : c % 2 = 1) (n : Nat) (st : St)
     (hn : st.2.control.shift = none) (hx : x ∈ st.2.ring c)
-    (hs : ∀ j, j < 2 * (st.2.ring c).length → SendableAt st j x)
-    (hl : ∀ j, j < 2 * (st.2.ring c).length → LowestAt st j c) :
-    ∃ j, j < 2 * (st.2.ring c).length ∧ ServesAt st j c x := by
+    (hs : ∀ j, j < n → SendableAt st j x) (hcount : 2 * (st.2.ring c).length ≤ levelCount c n st) :
+    ∃ j, j < n ∧ ServesAt st j c x := by
   apply Classical.byContradiction; intro hno
-  have hnot : ∀ j, j < 2 * (st.2.ring c).length → ¬ ServesAt st j c x := fun j hj hh => hno ⟨j, hj, hh⟩
-  have h := inc_potential c x hc hodd _ st hn hx hs hl hnot
+  have hnot : ∀ j, j < n → ¬ ServesAt st j c x := fun j hj hh => hno ⟨j, hj, hh⟩
+  have h := inc_potential c x hc hodd n st hn hx hs hnot
   have hp := pos_lt_length hx
   have : phi c x st.2 ≤ 2 * pos x (st.2.ring c) + 1 := by
     simp only [phi]; split <;> omega
@@ -464,7 +515,7 @@ theorem noninc_served_until (c x : Nat) (hev : c % 2 = 0) : ∀ (n : Nat) (st : 
     -- the first Pop
     have hfirst : (∀ id, ServesAt st 0 c id → id = x) ∧ (popSt st).2.control.shift = none ∧
         ((popSt st).2.ring c).head? = some x := by
-      cases hf : firstClass st.1 st.2.qs st.2.ring (classOrder (!st.2.toggle)) with
+      cases hf : firstClass st.1 st.2.qs st.2.ring (classOrder st.2.pref) with
       | none =>
         refine ⟨?_, ?_, ?_⟩
         · rintro id ⟨pre, post, hsv⟩; have := hsv.found; simp only [iter] at this; rw [hf] at this; cases this
@@ -570,23 +621,23 @@ example : NetVerif.Model.RFC9218Priority.parsePriority [117, 61, 45, 49] true = 
 example : NetVerif.Model.RFC9218Priority.parsePriority [117, 61, 55, 44, 32, 105] true = ((7, 1), true) := by decide
 example : NetVerif.Model.RFC9218Priority.parsePriority [117, 61, 49, 44, 32, 117, 61, 53] false = ((5, 1), true) := by decide
 
-/-! ## Level fairness: the full statement is FALSE for the code as it is (known finding
-`p9218-alternation-global-parity`)
+/-! ## Level fairness (full theorem, after the repair `fix: http2: … per urgency level`)
 
 "Among sendable streams of equal urgency no stream is starved", read on the Pops answered from ONE urgency
-level: while both classes of the level are sendable, two consecutive Pops answered from that level must not
-serve the same class.  The scheduler alternates with a single global bit that every Pop reaching the stream
-queues flips, also Pops answered from a more urgent level; such Pops can lock the parity. -/
+level: while both classes of the level are sendable, two consecutive Pops answered from that level never
+serve the same class — whatever happens at other urgency levels in between.  (Before the repair the
+alternation used one global bit that Pops answered from other levels also flipped; the input below is the
+reported witness, now a regression case in `corpus/C13/parity.ops`.) -/
 
 /-- Monitor over a history: `streak b` counts the consecutive Pops answered from `b`'s urgency level that
 served the sibling class while class `b` had a sendable stream.  `true` = some streak reached 2. -/
 def altViolates (e : Env) (s : P9218) (streak : Nat → Nat) : List Op → Bool
   | [] => false
-  | .pop h :: ops =>
+  | .pop _ :: ops =>
     match s.control.shift with
     | some _ => altViolates (s.pop e).1 (s.pop e).2.1 streak ops
     | none =>
-      match firstClass e s.qs s.ring (classOrder (!s.toggle)) with
+      match firstClass e s.qs s.ring (classOrder s.pref) with
       | none => altViolates (s.pop e).1 (s.pop e).2.1 streak ops
       | some (c, _, _, _) =>
         let other := if c % 2 = 1 then c - 1 else c + 1
@@ -596,49 +647,150 @@ def altViolates (e : Env) (s : P9218) (streak : Nat → Nat) : List Op → Bool
   | op :: ops => altViolates ((Sched.p9 s).step e op).1
       (match ((Sched.p9 s).step e op).2.1 with | .p9 s' => s' | _ => s) streak ops
 
-/-- **Full level-fairness statement** (all contract-respecting histories). -/
-def LevelFairStatement : Prop :=
-  ∀ (e : Env) (ops : List Op), Contract (fun _ => false) ops → altViolates e {} (fun _ => 0) ops = false
+/-- calls other than `Pop` do not touch the alternation state -/
+theorem step_pref (e : Env) (s : P9218) (op : Op) (h : ∀ hh, op ≠ .pop hh) :
+    ∃ s', ((Sched.p9 s).step e op).2.1 = .p9 s' ∧ s'.pref = s.pref := by
+  cases op with
+  | pop hh => exact absurd rfl (h hh)
+  | win id d => simp only [Sched.step]; split <;> exact ⟨s, rfl, rfl⟩
+  | maxframe n => exact ⟨s, rfl, rfl⟩
+  | openS id p c =>
+    simp only [Sched.step, P9218.openStream]
+    split
+    · exact ⟨s, rfl, rfl⟩
+    · exact ⟨_, rfl, rfl⟩
+  | closeS id =>
+    simp only [Sched.step, P9218.closeStream]
+    split
+    · exact ⟨s, rfl, rfl⟩
+    · exact ⟨_, rfl, rfl⟩
+  | adjust id d x w c =>
+    simp only [Sched.step, P9218.adjustStream]
+    split
+    · exact ⟨_, rfl, rfl⟩
+    · exact ⟨_, rfl, rfl⟩
+  | push f =>
+    simp only [Sched.step, P9218.push]
+    split
+    · exact ⟨_, rfl, rfl⟩
+    · split
+      · exact ⟨_, rfl, rfl⟩
+      · split
+        · exact ⟨s, rfl, rfl⟩
+        · exact ⟨_, rfl, rfl⟩
 
-/-- The reported input: stream 1 (u=0), stream 3 (u=3, non-incremental), stream 5 (u=3, incremental), 3 and 5
-with frames queued; one frame is pushed on stream 1 before every second Pop.  Every Pop answered from
-urgency 3 serves stream 3. -/
+/-- monitor invariant: a class that has just been passed over is the one whose turn it is at its level -/
+def AltInv (s : P9218) (streak : Nat → Nat) : Prop :=
+  ∀ b, 1 ≤ streak b → streak b = 1 ∧ s.pref (b / 2) = decide (b % 2 = 1)
+
+theorem altViolates_false (ops : List Op) : ∀ (e : Env) (s : P9218) (streak : Nat → Nat), AltInv s streak →
+    altViolates e s streak ops = false := by
+  induction ops with
+  | nil => intro e s streak _; rfl
+  | cons op ops ih =>
+    intro e s streak hI
+    cases op with
+    | pop hh =>
+      simp only [altViolates]
+      cases hsh : s.control.shift with
+      | some fc =>
+        simp only
+        obtain ⟨f, c⟩ := fc
+        apply ih
+        intro b hb
+        rw [(control_pop_keeps_toggle (e := e) hsh).2.1]; exact hI b hb
+      | none =>
+        simp only
+        cases hf : firstClass e s.qs s.ring (classOrder s.pref) with
+        | none =>
+          simp only
+          rw [pop_none_unchanged hsh hf]
+          exact ih e s streak hI
+        | some t =>
+          obtain ⟨c, pre, id, post⟩ := t
+          simp only
+          have hsv : Served e s c id pre post := ⟨hsh, hf⟩
+          generalize hother : (if c % 2 = 1 then c - 1 else c + 1) = other
+          have ho2 : other / 2 = c / 2 ∧ other ≠ c ∧ other % 2 ≠ c % 2 := by
+            rw [← hother]; split <;> omega
+          -- the passed-over class cannot have been passed over before
+          have hso : (if (s.ring other).any (fun y => sendable e (s.qs y)) = true then streak other + 1 else 0) ≤ 1 := by
+            split
+            · rename_i hany
+              have hz : streak other = 0 := by
+                apply Classical.byContradiction; intro hne
+                obtain ⟨_, hp⟩ := hI other (by omega)
+                obtain ⟨y, hy, hys⟩ := List.any_eq_true.1 hany
+                have := (served_order hsv).2.2 other ho2.1 ho2.2.1 (by rw [← ho2.1]; exact hp.symm) y hy
+                rw [this] at hys; cases hys
+              omega
+            · omega
+          have hnot : ¬ ((if (s.ring other).any (fun y => sendable e (s.qs y)) = true then streak other + 1 else 0) ≥ 2) := by
+            omega
+          rw [if_neg hnot]
+          apply ih
+          intro b hb
+          rw [toggle_flips hsv]
+          simp only [upd] at hb ⊢
+          by_cases hbc : b = c
+          · subst hbc; simp at hb
+          · simp only [hbc, if_false] at hb ⊢
+            by_cases hbo : b = other
+            · subst hbo
+              simp only [if_true] at hb
+              refine ⟨by simp only [if_true]; omega, ?_⟩
+              simp only [ho2.1, if_true]
+              have := ho2.2.2
+              cases hc2 : decide (b % 2 = 1) <;> simp at hc2 ⊢ <;> omega
+            · simp only [hbo, if_false] at hb ⊢
+              obtain ⟨h1, h2⟩ := hI b hb
+              refine ⟨h1, ?_⟩
+              have : ¬ (b / 2 = c / 2) := by
+                intro hh; obtain ⟨o1, o2, o3⟩ := ho2; omega
+              simp only [this, if_false]; exact h2
+    | win id d => exact alt_other ih e s streak hI (.win id d) (by simp)
+    | maxframe n => exact alt_other ih e s streak hI (.maxframe n) (by simp)
+    | openS id p c => exact alt_other ih e s streak hI (.openS id p c) (by simp)
+    | closeS id => exact alt_other ih e s streak hI (.closeS id) (by simp)
+    | adjust id d x w c => exact alt_other ih e s streak hI (.adjust id d x w c) (by simp)
+    | push f => exact alt_other ih e s streak hI (.push f) (by simp)
+where
+  alt_other {ops : List Op}
+      (ih : ∀ (e : Env) (s : P9218) (streak : Nat → Nat), AltInv s streak → altViolates e s streak ops = false)
+      (e : Env) (s : P9218) (streak : Nat → Nat) (hI : AltInv s streak) (op : Op) (h : ∀ hh, op ≠ .pop hh) :
+      altViolates e s streak (op :: ops) = false := by
+    obtain ⟨s', h1, h2⟩ := step_pref e s op h
+    have : altViolates e s streak (op :: ops) = altViolates ((Sched.p9 s).step e op).1 s' streak ops := by
+      cases op with
+      | pop hh => exact absurd rfl (h hh)
+      | win id d => simp only [altViolates, h1]
+      | maxframe n => simp only [altViolates, h1]
+      | openS id p c => simp only [altViolates, h1]
+      | closeS id => simp only [altViolates, h1]
+      | adjust id d x w c => simp only [altViolates, h1]
+      | push f => simp only [altViolates, h1]
+    rw [this]
+    apply ih
+    intro b hb; rw [h2]; exact hI b hb
+
+/-- **Level fairness, full theorem**: on every history (no contract needed), from the freshly constructed
+scheduler, two consecutive Pops answered from one urgency level never serve the same class while the other
+class of that level has a sendable stream. -/
+theorem level_fair (e : Env) (ops : List Op) : altViolates e {} (fun _ => 0) ops = false :=
+  altViolates_false ops e {} (fun _ => 0) (fun b hb => by simp at hb)
+
+/-- The formerly failing input: stream 1 (u=0), stream 3 (u=3, non-incremental), stream 5 (u=3, incremental),
+3 and 5 with frames queued; one frame is pushed on stream 1 before every second Pop.  The Pops answered from
+urgency 3 now alternate between stream 5 and stream 3. -/
 def parityWitness : List Op :=
   [.openS 1 0 0, .openS 3 0 6, .openS 5 0 7,
    .push (.hdr 3 1), .push (.hdr 5 2), .push (.hdr 3 3), .push (.hdr 5 4), .push (.hdr 3 5), .push (.hdr 5 6),
    .push (.hdr 1 7), .pop none, .pop none, .push (.hdr 1 8), .pop none, .pop none]
 
-theorem parityWitness_contract : Contract (fun _ => false) parityWitness := by
+example : Contract (fun _ => false) parityWitness := by
   simp [parityWitness, Contract, OpOK, opnOp, pushOK, upd]
 
-theorem parityWitness_results : ((Sched.p9 {}).run exEnv parityWitness).2.2.drop 9 =
-    [.ok, .frame (.hdr 1 7), .frame (.hdr 3 1), .ok, .frame (.hdr 1 8), .frame (.hdr 3 3)] := by decide
-
-/-- **The full statement is false for the code as it is.** -/
-theorem level_fair_full_false : ¬ LevelFairStatement := by
-  intro h
-  have := h exEnv parityWitness parityWitness_contract
-  revert this
-  decide
-
-/-- **What holds** (excluded region: a Pop answered from another urgency level, or by nothing, between the two
-Pops): two CONSECUTIVE Pops that both reach the stream queues and both serve the same urgency level while
-a stream of the respective other class is sendable serve different classes. -/
-theorem level_alternation_partial {e1 e2 : Env} {s : P9218} {opn : Nat → Bool} {c1 id1 c2 id2 : Nat}
-    {pre1 post1 pre2 post2 : List Nat} (hi : P9Inv s opn) (hi2 : P9Inv (s.pop e1).2.1 opn)
-    (h1 : Served e1 s c1 id1 pre1 post1) (h2 : Served e2 (s.pop e1).2.1 c2 id2 pre2 post2)
-    (x1 d1 : Nat) (hx1 : s.prio x1 = some d1) (hu1 : d1 / 2 = c1 / 2) (hn1 : d1 ≠ c1)
-    (hs1 : sendable e1 (s.qs x1) = true)
-    (x2 d2 : Nat) (hx2 : (s.pop e1).2.1.prio x2 = some d2) (hu2 : d2 / 2 = c2 / 2) (hn2 : d2 ≠ c2)
-    (hs2 : sendable e2 ((s.pop e1).2.1.qs x2) = true) :
-    c1 % 2 ≠ c2 % 2 := by
-  have a1 := alternation hi h1 x1 d1 hx1 hu1 hn1 hs1
-  have a2 := alternation hi2 h2 x2 d2 hx2 hu2 hn2 hs2
-  have ht := (control_pop h1).2
-  rw [ht] at a2
-  intro heq
-  rw [heq] at a1
-  rw [a1] at a2
-  cases hb : s.toggle <;> simp [hb] at a2
+example : ((Sched.p9 {}).run exEnv parityWitness).2.2.drop 9 =
+    [.ok, .frame (.hdr 1 7), .frame (.hdr 5 2), .ok, .frame (.hdr 1 8), .frame (.hdr 3 1)] := by decide
 
 end NetVerif.Proofs.C13
